@@ -21,6 +21,19 @@ def gen_case(rng, root, idx):
         os.makedirs(x)
     nfiles = rng.randint(0, 5)
     names = ["inc%d.clib" % i for i in range(nfiles)]
+    suffixy = rng.random() < 0.5
+    if suffixy:
+        # names that are textual suffixes of one another (lib.clib, alib.clib, zalib.clib, ...), in random visiting order
+        pre = ["", "a", "za", "qza", "1qza", "_1qza"]
+        names = [pre[i] + "lib.clib" for i in range(nfiles)]
+        rng.shuffle(names)
+    emb_counter = [0]
+
+    def emb_name(i, c, kind):
+        if not suffixy:
+            return "emb%d_%d.%s" % (i, c, kind)
+        emb_counter[0] += 1
+        return ["", "m", "em", "tem"][emb_counter[0] % 4] + "data%d.%s" % (emb_counter[0] // 4, kind)
     embeds = []
     consts = []
     files = {}   # (dir index, name) -> content
@@ -36,7 +49,7 @@ def gen_case(rng, root, idx):
             body.append("(defconstant %s %d)" % (cname, 100 * (c + 1) + i))
             if rng.random() < 0.4:
                 kind = rng.choice(["hex", "bin", "sexp"])
-                en = "emb%d_%d.%s" % (i, c, kind)
+                en = emb_name(i, c, kind)
                 edirs = rng.sample(range(ndirs), rng.randint(1, min(2, ndirs)))
                 for e in edirs:
                     content = {"hex": "ff0%d80" % (e + 1), "bin": "B%d" % e, "sexp": "(%d %d)" % (e, i)}[kind]
@@ -54,7 +67,7 @@ def gen_case(rng, root, idx):
         top.append("(include %s)" % n)
     if rng.random() < 0.5:
         kind = rng.choice(["hex", "bin", "sexp"])
-        en = "top.%s" % kind
+        en = ("data0.%s" if suffixy else "top.%s") % kind
         for e in rng.sample(range(ndirs), rng.randint(1, min(2, ndirs))):
             files[(e, en)] = {"hex": "ff0%d80" % (e + 1), "bin": "T%d" % e, "sexp": "(%d)" % e}[kind]
         top.append("(embed-file TOPEMB %s %s)" % (kind, en))
